@@ -214,6 +214,8 @@ def _loo_ref(h, y, mvec, KS):
 def loo_equals_actual_deletion(h, n, pk, pm, grad=True, errform="err"):
     rg, gp, x, y, e, S, Lat, mfs, cur = _setup(h, n, pk, pm, errform=errform)
     th = h.real("th", pm + pk)
+    h.allow(np.linalg.LinAlgError)
+    gp.loo_predictions()             # an earlier call with the hyper-parameters of construction: nothing of it may survive
     gp.set_hyperparameters(th)
     Lm, _ = Lat(th[pm:])
     KS = Lm @ Lm.T
